@@ -15,13 +15,13 @@
 (* have produced, per connection, exactly the logged outputs, the logged    *)
 (* set of serviced fds and the logged heap projection.                      *)
 (*                                                                          *)
-(* Acceptance: TLCGet(1) (high-water mark of l) = Len(Trace) + 1.  A trace  *)
+(* Acceptance: TLCGet(1) (high-water mark of l) = Len(TraceLog) + 1.  A trace  *)
 (* that is not accepted is reported as drift of the implementation from the *)
 (* design model (never as a property violation).                            *)
 (***************************************************************************)
 EXTENDS RcProxy, Json, TLCExt
 CONSTANT TraceFile
-Trace == ndJsonDeserialize(TraceFile)
+TraceLog == ndJsonDeserialize(TraceFile)
 
 VARIABLES l, l0, ievs
 tvars == <<l, l0, ievs>>
@@ -34,7 +34,7 @@ TMaxReq == [c \in TClients |-> 1000]
 
 Stimuli == {"send", "answer", "bclose", "cclose", "expire"}
 Ignored == {"open", "ready", "skip", "end", "noiter", "tick", "rawsend", "sclose", "openfail", "sendfail"}
-Line == Trace[l]
+Line == TraceLog[l]
 
 TInit == Init /\ l = 1 /\ l0 = 1 /\ ievs = <<>> /\ TLCSet(1, 1)
 
@@ -42,11 +42,11 @@ Mark(x) == TLCSet(1, IF x > TLCGet(1) THEN x ELSE TLCGet(1))
 
 \* ---- lines that are not part of the model
 Skip ==
-  /\ l <= Len(Trace) /\ phase = "poll" /\ Line.ev \in Ignored
+  /\ l <= Len(TraceLog) /\ phase = "poll" /\ Line.ev \in Ignored
   /\ l' = l + 1 /\ Mark(l + 1) /\ UNCHANGED <<vars, l0, ievs>>
 
 Reset ==
-  /\ l <= Len(Trace) /\ Line.ev = "begin"
+  /\ l <= Len(TraceLog) /\ Line.ev = "begin"
   /\ nsent' = [c \in Clients |-> 0] /\ cbuf' = [c \in Clients |-> <<>>]
   /\ cclosed' = [c \in Clients |-> FALSE] /\ copen' = [c \in Clients |-> TRUE]
   /\ closing' = [c \in Clients |-> FALSE] /\ inq' = [c \in Clients |-> <<>>]
@@ -58,11 +58,14 @@ Reset ==
   /\ bclosed' = [n \in Nodes |-> FALSE] /\ nclose' = 0 /\ hops' = <<>>
   /\ phase' = "poll" /\ ready' = {} /\ woke' = FALSE /\ seen' = <<>> /\ halted' = FALSE
   /\ mon' = MonInit /\ out' = <<>> /\ sched' = <<>>
-  /\ l' = l + 1 /\ l0' = l + 1 /\ ievs' = <<>> /\ Mark(l + 1)
+  \* connection set-up (accept iterations) up to the "ready" line is not modelled
+  /\ LET r == CHOOSE j \in l..Len(TraceLog) : TraceLog[j].ev \in {"ready", "end"} /\ \A k \in l..(j-1) : TraceLog[k].ev \notin {"ready", "end"}
+     IN l' = r + 1 /\ l0' = r + 1 /\ Mark(r + 1)
+  /\ ievs' = <<>>
 
 \* ---- environment choices, bound to the logged ones
 Stim ==
-  /\ l <= Len(Trace) /\ phase = "poll" /\ Line.ev \in Stimuli
+  /\ l <= Len(TraceLog) /\ phase = "poll" /\ Line.ev \in Stimuli
   /\ LET e == Line IN
        \/ e.ev = "send" /\ CliSend(e.c, [k |-> e.k, slots |-> e.slots])
        \/ e.ev = "cclose" /\ CliClose(e.c)
@@ -75,22 +78,38 @@ Stim ==
   /\ l' = l + 1 /\ Mark(l + 1) /\ UNCHANGED <<l0, ievs>>
 
 \* ---- one iteration of the model
+CONSTANT Debug
+Chk(what, cond, info) == IF cond THEN TRUE ELSE (IF Debug THEN PrintT(<<"MISMATCH", what, info>>) ELSE TRUE) /\ FALSE
 IsObs(e) == e.ev \in {"got", "recv", "pclose"}
 Begin ==
-  /\ l <= Len(Trace) /\ phase = "poll" /\ (IsObs(Line) \/ Line.ev = "iter")
+  /\ l <= Len(TraceLog) /\ phase = "poll" /\ (IsObs(Line) \/ Line.ev = "iter")
   /\ StartIter
   /\ l0' = l /\ ievs' = <<>> /\ UNCHANGED l
 
+\* index of the "iter" line that closes the block starting at l
+IterAt == CHOOSE j \in l..Len(TraceLog) : TraceLog[j].ev = "iter" /\ \A k \in l..(j-1) : TraceLog[k].ev # "iter"
+
+\* callbacks run in the order epoll reported the fds (the logged "seen" sequence, without wake-up fd and listener)
+LoggedOrder == LET e == TraceLog[IterAt] IN
+               SelectSeq([x \in DOMAIN e.seen |-> <<e.seen[x].k, IF e.seen[x].k = "s" THEN e.seen[x].node ELSE e.seen[x].n>>],
+                         LAMBDA y : y[1] \in {"c", "s"})
+DoneFds == [x \in DOMAIN seen |-> <<seen[x][1], seen[x][2]>>]
+\* the fd whose callback may run now: the one in progress, else the next logged one
+\* (IF-THEN-ELSE, not disjunction: inside an action TLC evaluates every disjunct)
+MayRun(fd) == IF Len(seen) > 0 /\ DoneFds[Len(seen)] = fd THEN TRUE
+              ELSE IF Len(seen) >= Len(LoggedOrder) THEN FALSE
+              ELSE IF LoggedOrder[Len(seen) + 1] # fd THEN FALSE
+              ELSE IF Len(seen) = 0 THEN TRUE
+              ELSE DoneFds[Len(seen)] \notin ready
+
 Micro ==
   /\ phase \in {"cb", "tasks"}
-  /\ \/ \E c \in Clients : CbClientReadOne(c)
-     \/ \E n \in Nodes : CbServerReadOne(n)
+  /\ \/ \E c \in Clients : MayRun(<<"c", c>>) /\ CbClientReadOne(c)
+     \/ \E n \in Nodes : MayRun(<<"s", n>>) /\ CbServerReadOne(n)
      \/ EndCallbacks
      \/ RunTasks
   /\ UNCHANGED tvars
 
-\* index of the "iter" line that closes the block starting at l
-IterAt == CHOOSE j \in l..Len(Trace) : Trace[j].ev = "iter" /\ \A k \in l..(j-1) : Trace[k].ev # "iter"
 
 \* observable key of an event, and the connection it belongs to
 Key(e) == CASE e.ev = "got"    -> <<"got", e.c, e.rep>>
@@ -102,15 +121,20 @@ Obs(seq) == SelectSeq(seq, IsObs)
 PerChan(seq, ch) == [x \in DOMAIN SelectSeq(seq, LAMBDA e : Chan(e) = ch) |-> Key(SelectSeq(seq, LAMBDA e : Chan(e) = ch)[x])]
 Chans == {<<"c", c>> : c \in Clients} \cup {<<"n", n>> : n \in Nodes}
 
-SeenSet(s) == {<<s[x][1], IF s[x][1] = "s" THEN s[x][2][1] ELSE s[x][2]>> : x \in DOMAIN s}
+SeenSet(s) == {<<s[x][1], s[x][2]>> : x \in DOMAIN s}
 TraceSeen(e) == {<<e.seen[x].k, IF e.seen[x].k = "s" THEN e.seen[x].node ELSE e.seen[x].n>> : x \in {y \in DOMAIN e.seen : e.seen[y].k # "L"}}
 
 SnapOK(e) ==
   /\ \A x \in DOMAIN e.snap.cli :
        LET c == e.snap.cli[x].c IN
        c \in Clients /\ copen'[c] =>
-         [j \in DOMAIN inq'[c] |-> <<msg'[inq'[c][j]].done, msg'[inq'[c][j]].fragDone, Cardinality(msg'[inq'[c][j]].frs)>>]
-           = [j \in DOMAIN e.snap.cli[x].msgs |-> <<e.snap.cli[x].msgs[j].done, e.snap.cli[x].msgs[j].fragDone, e.snap.cli[x].msgs[j].nfrags>>]
+         \* same queue: per message done flag, fragments done, and fragment count (the latter only for
+         \* forwarded requests; what a locally answered message carries is an implementation detail)
+         /\ Len(inq'[c]) = Len(e.snap.cli[x].msgs)
+         /\ \A j \in DOMAIN inq'[c] :
+              LET mm == msg'[inq'[c][j]] sm == e.snap.cli[x].msgs[j] IN
+              /\ mm.done = sm.done
+              /\ mm.frs # {} => (mm.fragDone = sm.fragDone /\ Cardinality(mm.frs) = sm.nfrags)
   /\ \A n \in Nodes : sopen'[n] =>
        \E x \in DOMAIN e.snap.srv : e.snap.srv[x].node = n /\ e.snap.srv[x].out = Len(outfq'[n]) /\ e.snap.srv[x]["in"] = Len(infq'[n])
   /\ e.snap.tasks = (tasks' # <<>>)
@@ -119,19 +143,19 @@ End ==
   /\ phase = "tmo"
   /\ TimeoutScan
   /\ LET j == IterAt
-         block == SubSeq(Trace, l0, j - 1)
-     IN /\ \A ch \in Chans : PerChan(Obs(out'), ch) = PerChan(Obs(block), ch)
-        /\ SeenSet(seen) = TraceSeen(Trace[j])
-        /\ SnapOK(Trace[j])
+         block == SubSeq(TraceLog, l0, j - 1)
+     IN /\ Chk("out", \A ch \in Chans : PerChan(Obs(out'), ch) = PerChan(Obs(block), ch), <<j, Obs(out')>>)
+        /\ Chk("seen", SeenSet(seen) = TraceSeen(TraceLog[j]), <<j, seen>>)
+        /\ Chk("snap", SnapOK(TraceLog[j]), <<j, [c \in Clients |-> [x \in DOMAIN inq'[c] |-> <<msg'[inq'[c][x]].done, msg'[inq'[c][x]].fragDone>>]], [n \in Nodes |-> <<Len(outfq'[n]), Len(infq'[n])>>], tasks'>>)
         /\ l' = j + 1 /\ Mark(j + 1)
   /\ l0' = l0 /\ ievs' = <<>>
 
 Quiet ==
-  /\ l <= Len(Trace) /\ phase = "poll" /\ Line.ev = "quiesce"
+  /\ l <= Len(TraceLog) /\ phase = "poll" /\ Line.ev = "quiesce"
   /\ Quiesce
   /\ l' = l + 1 /\ Mark(l + 1) /\ UNCHANGED <<l0, ievs>>
 
 TNext == Skip \/ Reset \/ Stim \/ Begin \/ Micro \/ End \/ Quiet
 TSpec == TInit /\ [][TNext]_<<vars, tvars>>
-Accepted == PrintT(<<"HWM", TLCGet(1), Len(Trace) + 1>>)
+Accepted == PrintT(<<"HWM", TLCGet(1), Len(TraceLog) + 1>>)
 =============================================================================
